@@ -87,9 +87,36 @@ def check(rep, ctx):
         c["path"] = rsrc.rel
         classes.append(c)
     entity_keys = set(S.classes) | {c["key"] for c in rm["classes"]}
+    # a plain helper class of the records module (an accessor mix-in) is harmless exactly when it adds no per-instance storage: it declares
+    # empty __slots__, has no fields, and its own bases are of the same kind.  Without __slots__ every instance of a subclass gets a
+    # __dict__, whatever slots=True says on the dataclass: object.__setattr__(batch, "x", []) then succeeds on a "frozen" value.
+    def _slots_src(c_):
+        return [o["src"].replace(" ", "") for o in c_["other"] if o["src"].lstrip().startswith("__slots__")]
+    rec_by_name = {c_["name"]: c_ for c_ in rm["classes"]}
+
+    def _is_stateless_mixin(c_, depth=0):
+        if c_["decorators"] or any(f_["has_value"] for f_ in c_["fields"]) or c_["keywords"] or depth > 5:  # bare annotations store nothing
+            return False
+        if _slots_src(c_) not in (["__slots__=()"], ["__slots__=[]"]):
+            return False
+        return all(_base_ok(b_, depth + 1) for b_ in c_["bases"])
+
+    def _base_ok(b_, depth=0):
+        n_ = (b_.get("n") or "") if isinstance(b_, dict) else ""
+        bc_ = rec_by_name.get(n_.rpartition(":")[2]) if n_.startswith("kio.records.schema:") or ":" not in n_ else None
+        return bc_ is not None and _is_stateless_mixin(bc_, depth)
     for c in classes:
         where = loc(S, c) if c["module"] != "kio.records.schema" else {"file": rsrc.rel, "line": c["line"]}
         dec = c["decorators"]
+        if c["module"] == "kio.records.schema" and c["name"] not in ("RecordHeader", "Record", "RecordBatch", "NewRecordBatch") \
+                and not dec and not any(f_["has_value"] for f_ in c["fields"]):
+            used_as_base = any(isinstance(b_, dict) and (b_.get("n") or "").rpartition(":")[2] == c["name"] for o_ in rm["classes"] for b_ in o_["bases"])
+            if used_as_base:
+                rep.check(R_B, _is_stateless_mixin(c), construct=c["key"], stmt=f"helper base class: __slots__ {_slots_src(c) or 'not declared'}",
+                          message=f"this base class of a record class does not declare empty __slots__: every instance of its subclasses gets a "
+                                  f"__dict__ (slots=True on the dataclass does not help), so object.__setattr__(batch, 'x', []) succeeds and the "
+                                  f"attached state is invisible to == and hash()", **where)
+            continue
         ok, why = False, "no dataclass decorator"
         if len(dec) == 1:
             d = dec[0]
@@ -105,8 +132,10 @@ def check(rep, ctx):
         elif len(dec) > 1:
             why = f"{len(dec)} decorators"
         rep.check(R_D, ok, construct=c["key"], stmt=f"decorators {dec}", message=why, **where)
-        rep.check(R_B, not c["bases"] and not c["keywords"], construct=c["key"], stmt=f"bases {c['bases']} keywords {c['keywords']}",
-                  message=f"entity class has bases {c['bases']} / keywords {c['keywords']}", **where)
+        bases_ok = not c["bases"] or (c["module"] == "kio.records.schema" and all(_base_ok(b_) for b_ in c["bases"]))
+        rep.check(R_B, bases_ok and not c["keywords"], construct=c["key"], stmt=f"bases {c['bases']} keywords {c['keywords']}",
+                  message=f"entity class has bases {c['bases']} / keywords {c['keywords']}: a base that is not a field-less class with empty "
+                          f"__slots__ adds per-instance storage (a __dict__) or fields outside the declared ones", **where)
         bad_members = [o for o in c["other"] if (o.get("name") in FORBIDDEN) or
                        any(o["src"].lstrip().startswith(f"{n} =") or o["src"].lstrip().startswith(f"{n}:") for n in FORBIDDEN)]
         cv_bad = [n for n in c["classvars"] if n in FORBIDDEN]
